@@ -30,6 +30,12 @@ import (
 //        restarted broker; the observations must be equal.
 // Sessions whose expiry instant has already passed at shutdown are unspecified (skipped).
 //
+// E3 (schedule exploration), scenario "c20race" (props/c20_race.go), runs first: one QoS 1/2
+// fan-out to a persistent subscriber whose reactive peer thread acknowledges as soon as it has
+// read the PUBLISH, every interleaving of the publisher's handler (fan-out, store write) with
+// the subscriber's acknowledgement (store delete) up to the delay bound, then shutdown and
+// restart at quiescence with the same differential oracle.
+//
 // Menus (clients A = "a:b" v5, B = "a" v4, P = publisher; filters "c", "b:c", "n" = denied):
 //   sess: connect modes (resume+expiry 60 / clean / v5 without expiry), takeover, DISCONNECT,
 //         drop, one subscription each, one publish, two 40 s ticks
@@ -341,6 +347,9 @@ func init() {
 			suffix = ",deep"
 			depth = map[string]int{"sess": 0, "subs": 0, "msgs": 0}
 		}
+		// E3 first: the schedule explorations are small and must not be starved by the history search
+		c.Rep.Assumption("c20race: one QoS 1/2 fan-out to a persistent subscriber whose peer thread acknowledges as soon as it has read the PUBLISH, all interleavings up to the delay bound; shutdown and restart at quiescence under the default schedule; oracle = in-memory state at shutdown vs restarted state, and no redelivery of a message whose final acknowledgement the subscriber had sent")
+		c20Races(c)
 		totals := map[string]int64{}
 		for _, be := range backends {
 			for _, sc := range menus {
